@@ -9,6 +9,7 @@ import (
 	"github.com/wundergraph/graphql-go-tools/v2/pkg/ast"
 	"github.com/wundergraph/graphql-go-tools/v2/pkg/astimport"
 	"github.com/wundergraph/graphql-go-tools/v2/pkg/astvisitor"
+	"github.com/wundergraph/graphql-go-tools/v2/pkg/lexer/literal"
 )
 
 func extractVariablesDefaultValue(walker *astvisitor.Walker) *variablesDefaultValueExtractionVisitor {
@@ -108,7 +109,8 @@ func (v *variablesDefaultValueExtractionVisitor) EnterVariableDefinition(ref int
 	}
 
 	isListVariable := v.operation.TypeIsList(v.operation.VariableDefinitions[ref].Type)
-	if isListVariable && len(valueBytes) > 0 && valueBytes[0] != '[' {
+	// list input coercion wraps a single value into a list; null stays null
+	if isListVariable && len(valueBytes) > 0 && valueBytes[0] != '[' && !bytes.Equal(valueBytes, literal.NULL) {
 		listWraps := v.operation.TypeNumberOfListWraps(v.operation.VariableDefinitions[ref].Type)
 		for range listWraps {
 			valueBytes = append([]byte{'['}, append(valueBytes, ']')...)
